@@ -220,7 +220,10 @@ mod verif_c07 {
     fn empty_values_keep_structure() {
         let mut ub = UriBuilder::new();
         ub.push_path_parameter_raw("");
-        assert!(&ub.buf[..] == b"/");
+        assert!(ub.buf.len() == 1 && ub.buf[0] == b'/');
+        // an empty parameter followed by another one: both separators are there (two adjacent '/')
+        ub.push_path_parameter_raw("a");
+        assert!(ub.buf.len() == 3 && ub.buf[0] == b'/' && ub.buf[1] == b'/' && ub.buf[2] == b'a');
         let mut q = UriBuilder::new();
         q.push_query_parameter_raw("k", "");
         assert!(q.buf.len() == 3 && q.buf[0] == b'?' && q.buf[1] == b'k' && q.buf[2] == b'=');
